@@ -78,7 +78,26 @@ func c01Scenario(h http.Handler, kind int, integrity bool) {
 	if vsym.Choice("prior", 2) == 1 { // an older object at the key, with other metadata
 		vsym.Assert(Do(h, BodyReq("PUT", "/bkt/"+key, http.Header{"X-Amz-Meta-Old": {"o"}}, []byte("previous"))).Code() == 200, "C01/prior-put")
 	}
-	switch vsym.Choice("path", 3) {
+	switch vsym.Choice("path", 4) {
+	case 3: // PUT with the aws-chunked (SigV4 streaming) framing: the payload is what is stored
+		var chunks [][]byte
+		if len(body) > 0 {
+			cut := len(body) / 2 // two chunks when there are at least two bytes
+			if cut > 0 {
+				chunks = append(chunks, body[:cut])
+			}
+			chunks = append(chunks, body[cut:])
+		}
+		stream := frameChunks(chunks)
+		sh := hdr.Clone()
+		sh.Set("X-Amz-Content-Sha256", "STREAMING-AWS4-HMAC-SHA256-PAYLOAD")
+		sh.Set("X-Amz-Decoded-Content-Length", itoa(len(body)))
+		sh.Del("Content-Md5") // a digest of the payload is not the digest of the framed stream
+		rp := Do(h, BodyReq("PUT", "/bkt/"+key, sh, stream))
+		vsym.Assert(rp.Code() == 200, "C01/streaming-put-status")
+		vsym.Assert(rp.Hdr.Get("ETag") == etagOf(body), "C01/streaming-put-etag")
+		checkEntity("C01/streaming-put", h, "/bkt/"+key, body, meta)
+		vsym.Reach("C01/streaming-put")
 	case 0: // PUT
 		rp := Do(h, BodyReq("PUT", "/bkt/"+key, hdr, body))
 		vsym.Assert(rp.Code() == 200, "C01/put-status")
